@@ -85,8 +85,24 @@ def step (s : DS) (ws : List String) : DS × String :=
         ({ s with conf := c }, dhtStr os ++ " " ++ wsStr os k)
       | _, _ => (s, "bad-op")
     | "slowtick" =>
-      match kb rest "stale" with
-      | some st => let (c, os) := run (.slowTick st true); ({ s with conf := c }, dhtStr os ++ " " ++ trStr os)
+      match kb rest "stale", kb rest "ready" with
+      | some st, some rd =>
+        let (c, os) := run (.slowTick st rd); ({ s with conf := c }, dhtStr os ++ " " ++ trStr os)
+      | _, _ => (s, "bad-op")
+    -- in-flight activities finish and the queued events run through the handler / the
+    -- metadata completes / ordinary peer traffic: scheduler passes (web-seed fetches are
+    -- the only outbound action they can reach); no tracker, DHT or handshake message
+    | "settle" =>
+      match kn rest "started" with
+      | some k => let (c, os) := run (.reqTick k); ({ s with conf := c }, "tr none " ++ wsStr os k ++ " late -")
+      | none => (s, "bad-op")
+    | "metadata" =>
+      match kn rest "started" with
+      | some k => let (c, os) := run (.reqTick k); ({ s with conf := c }, "complete=1 " ++ wsStr os k ++ " late -")
+      | none => (s, "bad-op")
+    | "traffic" =>
+      match kn rest "started" with
+      | some k => let (c, os) := run (.reqTick k); ({ s with conf := c }, wsStr os k ++ " late -")
       | none => (s, "bad-op")
     | "reqtick" | "webseed" | "want" =>
       match kn rest "started" with
